@@ -93,10 +93,9 @@ PROPS["C01"] = {
     "timeout": 3000,
 }
 PROPS["C02"] = {
-    "level": "other",
+    "level": "proof",
     "budget": {"quick": [("c02", 8000)], "thorough": [("c02", 1500000)], "search": [("c02", 2000000)]},
     "rule": "every legal move of every corpus position, then random games of 1-600 plies from corpus/generated valid positions with the board compared (all 8 bitboards, side, rights, ep, counters) after EVERY ply against the model and against Spec.play; plus a malformed stream (arbitrary boards x arbitrary moves) for make_move totality incl. panics; distinct = distinct (board, move) pairs",
-    "explanation": "C02's full theorem (MakeMoveRefines: never panics, abs(b') = Spec.play, Valid preserved, hence by induction over any legal history) is stated in Props/C02.lean; see 'theorems' for what is discharged in this run. The three-way correspondence (clone_with_move vs model vs Spec.play) runs on every check.",
     "trusted_base": [KERNEL, AXIOMS, TIE, EXTRACT, "Spec/Chess.lean play/keepsRight is the meaning of 'successor position'"],
     "assumptions": ["u8/i8 square arithmetic modelled by Nat/Int (wrap-around unreachable on valid boards)"],
     "finding_key": lambda sf: None,
